@@ -32,6 +32,7 @@ func runC02(c *Ctx) {
 
 func (c *Ctx) checkCompressedClose() {
 	L := c.L
+	c.checkParserConfig("parser-config")
 	L.Rule("close-order", "Close() of a compressed writer calls buf.Flush, then the compressor's Close, then the file's Close, each exactly once, the later ones only after the earlier ones (dominance), and returns the file's Close result; Write and WriteString delegate to the same buffered writer")
 	for _, t := range []struct{ typ, comp string }{{"gzstringwritercloser", "gw"}, {"xzstringwritercloser", "xw"}} {
 		r := c.fn("io/utils", "*"+t.typ, "Close")
